@@ -24,7 +24,7 @@ def _mk_consumer(repo_root):
 
 def inmem_update_delayed(repo_root, tier):
     """_InMemoryConsumer.__update_delayed against the clauses of its sidecar contract.
-    bound: <= 3 delayed entries with due times from a 7-point grid around `now`, each list of 1..2 messages,
+    bound: <= 3 delayed entries (in every insertion order) with due times from a 7-point grid around `now`, each list of 1..2 messages,
     0..2 messages already waiting (quick: lists of 1 message)."""
     Cons, Broker, DummyQueue, Message, RoutingKey, Parameters = _mk_consumer(repo_root)
     import repid.connections.in_memory.consumer as mod
@@ -85,7 +85,7 @@ def inmem_update_delayed(repo_root, tier):
         return errs
 
     for k in range(0, 4):
-        for times in itertools.combinations(grid, k):
+        for times in itertools.permutations(grid, k):       # every insertion order of the dict, not only ascending
             for sizes in itertools.product(range(1, maxlist + 1), repeat=k):
                 for waiting in range(0, 3):
                     evaluations += 1
